@@ -26,23 +26,25 @@ type mutexState struct {
 }
 
 type World struct {
-	i           *interpreter
-	now         value // current instant in ns since the Unix epoch: int64 or symv(Int64)
-	nowCount    int
-	timers      []*mtimer
-	mutexes     map[*value]*mutexState
-	wgs         map[*value]int
-	onces       map[*value]bool
-	fs          *mfs
-	autoFire    bool // fire timers when every goroutine is blocked
-	objID       int
-	logs        []string
-	hashCount   int
-	unixCache   map[int]value
-	place       map[int]byte
-	placeBack   map[byte]value
-	servers     []*mserver
-	yieldOnRead bool
+	i            *interpreter
+	now          value // current instant in ns since the Unix epoch: int64 or symv(Int64)
+	nowCount     int
+	timers       []*mtimer
+	mutexes      map[*value]*mutexState
+	wgs          map[*value]int
+	onces        map[*value]bool
+	fs           *mfs
+	autoFire     bool // fire timers when every goroutine is blocked
+	objID        int
+	logs         []string
+	hashCount    int
+	unixCache    map[int]value
+	place        map[int]byte
+	placeBack    map[byte]value
+	servers      []*mserver
+	yieldOnRead  bool
+	fireBudget   int
+	fireBudgetOn bool
 }
 
 func newWorld(i *interpreter) *World {
@@ -162,8 +164,14 @@ func (w *World) fireEarliestTimer() bool {
 	if !w.autoFire {
 		return false
 	}
+	if w.fireBudgetOn && w.fireBudget <= 0 {
+		return false
+	}
 	for _, t := range w.timers {
 		if !t.stopped && !t.fired {
+			if w.fireBudgetOn {
+				w.fireBudget--
+			}
 			w.fire(t)
 			return true
 		}
